@@ -2,6 +2,7 @@
 namespace Larking.Expected.C08
 
 def conds_muxOptions_readAll : List String := [
+   "func (*muxOptions) readAll(b []byte, r io.Reader) ([]byte, error)",
    "for",
    "if len(b) == cap(b)",
    "if total > int64(o.maxReceiveMessageSize)",
@@ -11,6 +12,7 @@ def conds_muxOptions_readAll : List String := [
   ]
 
 def conds_muxOptions_writeAll : List String := [
+   "func (*muxOptions) writeAll(dst io.Writer, b []byte) error",
    "if len(b) > o.maxSendMessageSize",
    "return fmt.Errorf(\"max send message size reached\")",
    "if err == nil && n != len(b)",
@@ -19,6 +21,7 @@ def conds_muxOptions_writeAll : List String := [
   ]
 
 def conds_streamGRPC_RecvMsg : List String := [
+   "func (*streamGRPC) RecvMsg(m interface{}) error",
    "defer s.wg.Done()",
    "if err := s.isDone(); err != nil",
    "return err",
@@ -48,6 +51,7 @@ def conds_streamGRPC_RecvMsg : List String := [
   ]
 
 def conds_streamGRPC_SendMsg : List String := [
+   "func (*streamGRPC) SendMsg(m interface{}) error",
    "defer s.wg.Done()",
    "if err := s.isDone(); err != nil",
    "return err",
@@ -74,6 +78,7 @@ def conds_streamGRPC_SendMsg : List String := [
   ]
 
 def conds_streamWS_RecvMsg : List String := [
+   "func (*streamWS) RecvMsg(m interface{}) error",
    "if s.method.hasBody",
    "if err != nil",
    "return err",
@@ -91,6 +96,7 @@ def conds_streamWS_RecvMsg : List String := [
   ]
 
 def conds_streamHTTP_readMsg : List String := [
+   "func (*streamHTTP) readMsg(c Codec, b []byte) (int, []byte, error)",
    "if s.rEOF",
    "return s.recvCount, nil, io.EOF",
    "if s.method.desc.IsStreamingClient()",
@@ -106,6 +112,7 @@ def conds_streamHTTP_readMsg : List String := [
   ]
 
 def conds_CodecProto_ReadNext : List String := [
+   "func (CodecProto) ReadNext(b []byte, r io.Reader, limit int) ([]byte, int, error)",
    "for i := 0; i < binary.MaxVarintLen64; i++",
    "for i >= len(b)",
    "if len(b) == cap(b)",
@@ -126,6 +133,7 @@ def conds_CodecProto_ReadNext : List String := [
   ]
 
 def conds_CodecJSON_ReadNext : List String := [
+   "func (CodecJSON) ReadNext(b []byte, r io.Reader, limit int) ([]byte, int, error)",
    "for i := 0; i < int(limit); i++",
    "for i >= len(b)",
    "if len(b) == cap(b)",
@@ -150,6 +158,7 @@ def conds_CodecJSON_ReadNext : List String := [
   ]
 
 def conds_codecHTTPBody_ReadNext : List String := [
+   "func (codecHTTPBody) ReadNext(b []byte, r io.Reader, limit int) ([]byte, int, error)",
    "for total < limit",
    "if len(b) == cap(b)",
    "if err == io.EOF && total > limit",
